@@ -195,3 +195,20 @@ _mg(f"{BASE}.create_rule_violation_messages", params=_RV, returns="Bag[Str]", re
 REG.macro("text_post", ["g", "rv", "t"], "exists(Bag[Str], lambda L: lines_post(g, rv, L) and is_join(t, '\\n', L))")
 _mg(f"{BASE}.create_rule_violation_message", params=_RV, returns="Str", opts=["join_rel"], opaque=_OPQ2 + ["other_img", "other_complete_l", "noimp_complete_l"],
     ensures=["text_post(self, rule_violations, result)"])
+
+# ---------------------------------------------------------------- group 4: the matcher side (rule_matcher.py): which generator renders the text raised by match
+M_RM = "pytestarch.rule_assessment.rule_check.rule_matcher"
+DRM = "DefaultRuleMatcher"
+REG.macro("gen_of", ["rm"], "new(RuleViolationMessageGenerator, _import_rule=rm._updated_module_requirement._importer_specified_as_rule_subject, "
+                            "_base_verb=('import' if rm._updated_module_requirement._importer_specified_as_rule_subject else 'imported by'))")
+_mg("RuleMatcher._create_rule_violation_message_generator", module=M_RM, status="abstract", params=dict(self=DRM), returns=RMG,
+    note="abstract method (body: pass); implemented by DefaultRuleMatcher / LayerRuleMatcher")
+_mg("DefaultRuleMatcher._create_rule_violation_message_generator", module=M_RM, params=dict(self=DRM), returns=RMG,
+    # the generator speaks in the direction of the (converted) requirement: 'import' iff the importer is the rule subject
+    ensures=["result == gen_of(self)"])
+_mg("RuleMatcher._create_rule_violation_message@str", qualname="RuleMatcher._create_rule_violation_message", module=M_RM,
+    params=dict(self=DRM, rule_violations="RuleViolations"), returns="Str", opaque=_OPQ2 + ["other_img", "other_complete_l", "noimp_complete_l"],
+    # the text handed to AssertionError by RuleMatcher.match is the generator's text for the matcher's direction
+    ensures=["text_post(gen_of(self), rule_violations, result)"],
+    note="string-view contract of the function whose default-view contract in c_rules.py (status assumed: total, returns a str) is used by RuleMatcher.match; "
+         "this contract proves that assumption (no exception, Str) and states what the text is")
